@@ -56,6 +56,13 @@ func apply(r req) (out string, err error) {
 		return b.Apply(builder.NewOption(file), r.Text)
 	case r.Op == "directive":
 		return directive.Run(file, r.Text)
+	case r.Op == "tunables":
+		// the built-in variable table the builders resolve against, as preamble text
+		out := ""
+		for _, v := range aa.DefaultTunables().Preamble.GetVariables() {
+			out += "@{" + v.Name + "} = " + strings.Join(v.Values, " ") + "\n"
+		}
+		return out, nil
 	}
 	return "", fmt.Errorf("unknown op %s", r.Op)
 }
